@@ -24,7 +24,9 @@ Print Assumptions C14_strategy_is_concurrent.
 
 (* empty-args check first; argv and directory passed on; Start error returned; the keys
    "return-value"/"stdout"/"stderr" fed from Wait's exit code and the two captures;
-   waitErrToExitCode = -1 by default, 0 for nil, ExitStatus() for an ExitError *)
+   waitErrToExitCode = -1 by default, 0 for nil, ExitStatus() for an ExitError; RunCommand sets no
+   other field of the exec.Cmd (WaitDelay, Cancel, Env, ...: the model knows none); InTotoRun hands
+   its cmdArgs to nothing but the len() guard and RunCommand(cmdArgs, runDir) *)
 Theorem C14_source_wiring : source_wiring_ok = true.
 Proof. exact wiring_ok. Qed.
 Print Assumptions C14_source_wiring.
